@@ -255,6 +255,9 @@ func genTrafficOpts(rng *rand.Rand, nMsgs, heldProb, idPool, maxBatch int, noteE
 			if noteErrs {
 				out = []string{"ok", "err", "errcode:-32600", "errcode:-32700"}[rng.Intn(4)]
 			}
+			if rng.Intn(4) == 0 { // an explicit null id is a notification too
+				return fmt.Sprintf(`{"jsonrpc":"2.0","id":null,"method":"m","params":[%q,%q]}`, fmt.Sprintf("%sn%d", held, uid), out)
+			}
 			return reqNote(fmt.Sprintf("%sn%d", held, uid), out)
 		}
 		var id any = uid
